@@ -343,11 +343,12 @@ class AnsiString:
             remove_and_add_settings = []
             settings_at_start = self.ansi_settings_at(start)
             for setting in settings_at_start:
-                if setting not in self._fmts[start].add:
+                if __class__._find_setting_reference(setting, self._fmts[start].add) < 0:
                     remove_and_add_settings.append(setting)
             if remove_and_add_settings:
                 self._fmts[start].insert_settings(False, remove_and_add_settings)
-                self._fmts[start].insert_settings(True, remove_and_add_settings)
+                # Re-add right after the new settings so that settings which start here stay on top of them
+                self._fmts[start].add[len(ansi_settings):len(ansi_settings)] = remove_and_add_settings
 
         # Remove settings
         if end not in self._fmts:
